@@ -480,7 +480,7 @@ def exJws : Jws :=
 def exReq : Req :=
   { provId := 31, provName := 32, provKnown := true, url := 40, ct := 0, certPath := false, parsed := true,
     jws := exJws, fresh := 8, target := 50, target2 := 0, payloadOk := true, wantDeactivate := false,
-    onlyExisting := false, certKey := 0 }
+    onlyExisting := false, certKey := 0, certSame := true }
 def exWorld : World :=
   { nonces := [7], accounts := [exAcct, { exAcct with id := 2, key := 12, loc := 22 }],
     orders := [⟨50, 1, 31⟩, ⟨51, 2, 31⟩], authzs := [⟨60, 1, 0⟩, ⟨61, 2, 0⟩],
@@ -706,12 +706,15 @@ theorem confined_served {rs : List Route} (hg : tableGuarded rs = true) {r : Rou
 def canExtract (j : Jws) : Bool := j.nsigs ≠ 0 && j.jwk.isSome
 
 /-- **revoke_only_owner_or_holder.** `RevokeCert` revokes only a stored, not yet revoked certificate,
+    only when the certificate submitted is byte for byte the stored one with that serial (so
+    `certKey`, the key of the submitted certificate, is the key of the certificate being revoked),
     and only for the active account that owns it (no embedded key) or for a request whose signature —
-    the bytes `verifyAndExtractJWSPayload` accepted — verifies under the certificate's own key
+    the bytes `verifyAndExtractJWSPayload` accepted — verifies under that certificate's key
     (embedded key). -/
 theorem revoke_only_owner_or_holder {rq : Req} {w w' : World} {c : Ctx} {res : Res}
     (hr : runHandler .revokeCert rq w c = (w', .ok res)) :
-    ∃ j x, c.jws = some j ∧ findCert w rq.target = some x ∧ x.revoked = false ∧ res = .revoked x.id ∧
+    ∃ j x, c.jws = some j ∧ findCert w rq.target = some x ∧ rq.certSame = true ∧ x.revoked = false ∧
+      res = .revoked x.id ∧
       ((canExtract j = false ∧ ∃ a, c.acc = some a ∧ a.status = .valid ∧ x.acct = a.id) ∨
        (canExtract j = true ∧ ∃ thumb kalg, c.jwk = some (thumb, kalg) ∧
           verifiesIn j (sigState j thumb) rq.certKey = true)) := by
@@ -722,11 +725,13 @@ theorem revoke_only_owner_or_holder {rq : Req} {w w' : World} {c : Ctx} {res : R
     split at hr; · simp at hr
     rename_i x hx
     split at hr; · simp at hr
+    rename_i hsame
+    split at hr; · simp at hr
     rename_i hauth
     split at hr; · simp at hr
     rename_i hrev
     simp at hr
-    refine ⟨j, x, hj, hx, by simpa using hrev, hr.2.symm, ?_⟩
+    refine ⟨j, x, hj, hx, by simpa using hsame, by simpa using hrev, hr.2.symm, ?_⟩
     split at hauth
     · rename_i hcond
       left
@@ -755,17 +760,17 @@ theorem revoke_only_owner_or_holder {rq : Req} {w w' : World} {c : Ctx} {res : R
 theorem revoke_served {rs : List Route} (hg : tableGuarded rs = true) {r : Route} (hr : r ∈ rs)
     (hh : r.handler = .h .revokeCert) {rq : Req} {w w' : World} {res : Res}
     (hs : serve r.chain .revokeCert rq w = (w', .ok res)) :
-    ∃ x, findCert w rq.target = some x ∧ x.revoked = false ∧ res = .revoked x.id ∧
+    ∃ x, findCert w rq.target = some x ∧ rq.certSame = true ∧ x.revoked = false ∧ res = .revoked x.id ∧
       ((rq.jws.jwk = none ∧ ∃ a, accById w rq.jws.kidBase = some a ∧ a.status = .valid ∧
           verifies rq.jws a.key = true ∧ x.acct = a.id) ∨
        (∃ k, rq.jws.jwk = some k ∧ verifies rq.jws k.thumb = true ∧
           verifiesIn rq.jws (sigState rq.jws k.thumb) rq.certKey = true)) := by
   obtain ⟨pag, w1, c, hon, hrun⟩ := served_only_if hg hr hh hs
-  obtain ⟨j, x, hj, hx, hrev, hres, hwho⟩ := revoke_only_owner_or_holder hrun
+  obtain ⟨j, x, hj, hx, hsame, hrev, hres, hwho⟩ := revoke_only_owner_or_holder hrun
   rw [hon.ctxJws] at hj; cases hj
   have ⟨e1, e2, e3, e4, e5⟩ := validated_accounts hon.validated
   have hx' : findCert w rq.target = some x := by simpa [findCert, e5] using hx
-  refine ⟨x, hx', hrev, hres, ?_⟩
+  refine ⟨x, hx', hsame, hrev, hres, ?_⟩
   have hone := hon.validated.oneSig
   obtain ⟨thumb, kalg, hk, _, hver⟩ := hon.verified
   have hsig : signerProof .either rq w1 c := hon.signer
